@@ -201,6 +201,46 @@ def rule_b(ctx, ix):
                detail='SubsetGroup no longer reacts to %s with %s' % (msg.rpartition('.')[2], handler), where=h.where)
 
 
+    # register_to_hub is an entry point of its own (the session loaders above call it without register()): what its handlers
+    # and filters read from the group must be set by the constructor or by register_to_hub itself
+    s_ = h.self_name
+    init = sg.resolve_func('__init__')
+    field_sets = {}
+    for name, mem in sg.members.items():
+        fn = mem.func
+        if fn is None or fn.cls is not sg:
+            continue
+        for st in ast.walk(fn.node):
+            if isinstance(st, ast.Assign):
+                for t in st.targets:
+                    for x in (t.elts if isinstance(t, (ast.Tuple, ast.List)) else [t]):
+                        if isinstance(x, ast.Attribute) and isinstance(x.value, ast.Name) and x.value.id == fn.self_name:
+                            field_sets.setdefault(x.attr, []).append((name, st.value))
+    for c in calls_in(h.node):
+        if call_name(c) != 'subscribe':
+            continue
+        parts = [a for a in c.args[2:]] + [k.value for k in c.keywords if k.arg in ('handler', 'filter')]
+        for part in parts:
+            body = part
+            if isinstance(part, ast.Name):
+                defs = [d for d in ast.walk(h.node) if isinstance(d, ast.FunctionDef) and d.name == part.id and d is not h.node]
+                if defs:
+                    body = defs[0]
+            for x in ast.walk(body):
+                if isinstance(x, ast.Attribute) and isinstance(x.ctx, ast.Load) and isinstance(x.value, ast.Name) and x.value.id == s_ \
+                        and x.attr in field_sets:
+                    sets = field_sets[x.attr]
+                    ok = any(m_ == 'register_to_hub' for m_, v_ in sets) or \
+                        any(m_ == '__init__' and not (isinstance(v_, ast.Constant) and v_.value is None) for m_, v_ in sets)
+                    ctx.ob(R, '%s subscription reads %s.%s' % (h.construct, s_, x.attr),
+                           'what a handler / filter of the group reads is set by the constructor or by register_to_hub itself', ok,
+                           detail='a subscription made by SubsetGroup.register_to_hub depends on `%s.%s`, which only %s sets: the session '
+                                  'loaders subscribe restored groups through register_to_hub alone, so for a restored group the field '
+                                  'is unset, the filter rejects every message and datasets added (or removed) afterwards are not '
+                                  'followed' % (s_, x.attr, sorted({m_ for m_, v_ in sets if not (isinstance(v_, ast.Constant) and v_.value is None)})),
+                           where=where(h, c))
+
+
 def rule_c(ctx, ix):
     R = 'C06.c'
     ctx.describe(R, 'grouped subsets delegate selection, label and style to their group', floor=3)
